@@ -23,6 +23,9 @@ package main
 //   handout:pkg.v  a function RETURNS the pointer held in the package-level variable v (or &v): the process-wide
 //              object is handed out, e.g. by a constructor helper that shares one default object, and ends up in
 //              per-set data where a later `x.F.G = ..` writes it
+//   adopt:T.f  a function STORES a slice or map PARAMETER (or a reslicing of it, or a local bound to it) into
+//              field T.f (assignment or composite literal) instead of a copy: the object now shares its backing
+//              store with the caller and with every other object that was given the same argument
 //   escape:T.f a function RETURNS the slice or map stored in T.f (or a reslicing of it, or a local bound to it)
 //              instead of a copy: the shared container is handed to the caller, who may treat it as its own.
 //              Recorded as a write; on the read paths of C19 it must therefore be in the allow-list.
@@ -414,6 +417,7 @@ type lkWalk struct {
 	escLit    map[*ast.FuncLit]bool
 	ownRet    map[*ast.ReturnStmt]bool // return statements of the function itself (not of a literal inside it)
 	fieldAl   map[types.Object]string  // local bound to a slice/map field (x := e.F, x := e.F[a:b]) -> "T.F"
+	paramAl   map[types.Object]bool    // local bound to (a reslicing of) a slice/map parameter
 	params    map[types.Object]bool    // parameters of the function and of its inlined literals
 	inlineObj map[types.Object]bool    // locals bound only to literals that are walked in place
 }
@@ -422,7 +426,7 @@ func (g *lkGen) walkBody(fn *lkFunc, body ast.Node, top *ast.BlockStmt, sig *ast
 	w := &lkWalk{g: g, fn: fn, fresh: map[types.Object]bool{}, alias: map[types.Object]string{}, wtgt: map[ast.Node]string{},
 		skip: map[ast.Node]bool{}, okLock: map[*ast.CallExpr]bool{}, escLit: map[*ast.FuncLit]bool{},
 		params: map[types.Object]bool{}, inlineObj: map[types.Object]bool{},
-		ownRet: map[*ast.ReturnStmt]bool{}, fieldAl: map[types.Object]string{}}
+		ownRet: map[*ast.ReturnStmt]bool{}, fieldAl: map[types.Object]string{}, paramAl: map[types.Object]bool{}}
 	ast.Inspect(body, func(n ast.Node) bool {
 		switch x := n.(type) {
 		case *ast.FuncLit:
@@ -938,8 +942,12 @@ func (w *lkWalk) bind(lhs ast.Expr, rhs ast.Expr, ranged bool) {
 	delete(w.fresh, obj)
 	delete(w.alias, obj)
 	delete(w.fieldAl, obj)
+	delete(w.paramAl, obj)
 	if rhs == nil {
 		return
+	}
+	if !ranged && w.callerContainer(rhs) {
+		w.paramAl[obj] = true
 	}
 	if !ranged {
 		if loc := w.sharedContainer(rhs); loc != "" {
@@ -1002,6 +1010,17 @@ func (w *lkWalk) walk(root ast.Node) {
 				}
 			}
 			return true
+		case *ast.CompositeLit:
+			if tn := namedOf(w.g.info.TypeOf(x)); tn != "" {
+				for _, el := range x.Elts {
+					if kv, ok := el.(*ast.KeyValueExpr); ok {
+						if k := identOf(kv.Key); k != nil && w.callerContainer(kv.Value) {
+							w.acc("adopt:"+tn+"."+k.Name, true, kv.Pos())
+						}
+					}
+				}
+			}
+			return true
 		case *ast.GoStmt:
 			g.fail(x.Pos(), "go statement is not supported")
 			return false
@@ -1013,6 +1032,11 @@ func (w *lkWalk) walk(root ast.Node) {
 		case *ast.AssignStmt:
 			for _, l := range x.Lhs {
 				w.markWrite(l)
+			}
+			if len(x.Lhs) == len(x.Rhs) {
+				for i := range x.Lhs {
+					w.adoption(x.Lhs[i], x.Rhs[i])
+				}
 			}
 			// walk by hand to get the bindings after the right-hand sides were seen
 			for _, l := range x.Lhs {
@@ -1380,4 +1404,61 @@ func (w *lkWalk) pkgObjectHandedOut(e ast.Expr) string {
 		return "pkg." + v.Name()
 	}
 	return ""
+}
+
+// callerContainer: e is (a reslicing of) a slice or map PARAMETER of the function, or a local bound to one:
+// memory that belongs to the caller.
+func (w *lkWalk) callerContainer(e ast.Expr) bool {
+	e = unparen(e)
+	for {
+		sl, ok := e.(*ast.SliceExpr)
+		if !ok {
+			break
+		}
+		e = unparen(sl.X)
+	}
+	id, ok := e.(*ast.Ident)
+	if !ok {
+		return false
+	}
+	v, ok := w.g.info.Uses[id].(*types.Var)
+	if !ok {
+		return false
+	}
+	if w.paramAl[v] {
+		return true
+	}
+	if !w.params[v] || v.Type() == nil {
+		return false
+	}
+	switch v.Type().Underlying().(type) {
+	case *types.Slice, *types.Map:
+		return true
+	}
+	return false
+}
+
+// adoption: `x.F = param` / `pkgvar = param` stores the caller's slice or map itself instead of a copy: the
+// object and the caller (and every other object given the same argument) now share one backing store.
+func (w *lkWalk) adoption(lhs, rhs ast.Expr) {
+	if !w.callerContainer(rhs) {
+		return
+	}
+	switch x := unparen(lhs).(type) {
+	case *ast.SelectorExpr:
+		sel := w.g.info.Selections[x]
+		if sel == nil || sel.Kind() != types.FieldVal || w.isLocalStorage(x.X) {
+			return
+		}
+		v := sel.Obj().(*types.Var)
+		owner := w.g.fieldOwner[v]
+		if owner == "" {
+			owner = "?"
+		}
+		w.acc("adopt:"+owner+"."+v.Name(), true, lhs.Pos())
+	case *ast.Ident:
+		if v, ok := w.g.info.Uses[x].(*types.Var); ok && v.Parent() == w.g.pkg.Scope() {
+			w.acc("adopt:pkg."+v.Name(), true, lhs.Pos())
+		}
+	}
 }
